@@ -502,9 +502,15 @@ def c19_framing_decision(s: SCtx, I) -> None:
 
     UND = []
 
+    opaque_returns = [n for n in g.ids(lambda x: x.kind == "stmt" and isinstance(x.ast, ast.Return) and x.ast.value is not None and not isinstance(x.ast.value, ast.Constant))
+                      if n not in fail]
+
     def run(h, d, dec):
         del UND[:]
-        return walk(g, I, make_env({hp: h, dp: d, "self._transferDecoder": dec}), undecided=UND)
+        vis = walk(g, I, make_env({hp: h, dp: d, "self._transferDecoder": dec}), undecided=UND)
+        # a path that ends in a return whose value this rule cannot classify (a call through a table, a helper ...) is not understood
+        UND.extend(n for n in opaque_returns if n in vis)
+        return vis
 
     def hit(vis, nodes):
         return any(n in vis for n in nodes)
